@@ -239,7 +239,7 @@ theorem step_elems (rc : Bool) (h : Rel m db) (he : ElemsOK m.raws db) (s : Stmt
                   intro i hi
                   have : i = pkIndex pk := by simpa [Table.new] using hi
                   subst this
-                  refine ⟨rfl, ?_, rfl, Or.inl rfl⟩
+                  refine ⟨rfl, ?_, rfl, Or.inl rfl, rfl⟩
                   intro hc
                   apply hp
                   show pk.isEmpty = true
@@ -378,7 +378,7 @@ theorem step_elems (rc : Bool) (h : Rel m db) (he : ElemsOK m.raws db) (s : Stmt
           · intro i hi'
             obtain ⟨hi1, hi2⟩ := List.mem_filter.mp hi'
             obtain ⟨i0, hi0, rfl⟩ := List.mem_map.mp hi1
-            refine ⟨(hfr.1 i0 hi0).add, ?_, (hfr.1 i0 hi0).pk, (hfr.1 i0 hi0).typ⟩
+            refine ⟨(hfr.1 i0 hi0).add, ?_, (hfr.1 i0 hi0).pk, (hfr.1 i0 hi0).typ, (hfr.1 i0 hi0).prev⟩
             intro hc
             rw [hc] at hi2
             cases hi2
@@ -432,7 +432,7 @@ theorem step_elems (rc : Bool) (h : Rel m db) (he : ElemsOK m.raws db) (s : Stmt
       obtain ⟨tm', hft, hm1⟩ := Migration.edit_inv m m1 t _ _ id tm hg hmt h1
       subst hm1
       rw [Migration.using_raws, Migration.raws_set]
-      have hpkf : (pkIndex cols).Live := ⟨rfl, hcne, rfl, Or.inl rfl⟩
+      have hpkf : (pkIndex cols).Live := ⟨rfl, hcne, rfl, Or.inl rfl, rfl⟩
       cases hgi : tm.idxIdx.get? (pkIndex cols).name with
       | none =>
         rw [Table.addIndex_raw_fresh tm tm' _ hgi hft]
@@ -607,7 +607,7 @@ theorem step_elems (rc : Bool) (h : Rel m db) (he : ElemsOK m.raws db) (s : Stmt
         rcases List.mem_append.mp hi' with h' | h'
         · exact hfr.1 i h'
         · rw [List.mem_singleton.mp h']
-          refine ⟨rfl, hcne, ?_, by cases uniq <;> simp⟩
+          refine ⟨rfl, hcne, ?_, by cases uniq <;> simp, rfl⟩
           have : (name == pkName) = false := by simpa using hnpk
           simp [this]
   | dropIndex t name =>
